@@ -89,11 +89,12 @@ def check(ctx, ws, msb):
            len(loads) == 2 and done_guard in gs and {(cs_atom, not cs_pol)} in gs, loads[0].loc if loads else None,
            'word_out must be loaded on word completion and while chip select is inactive: %s' % [q.fmt(a) for a in loads])
     wi = ir.drivers('self.word_in', exact=True)
-    wc = q.raises(ir, 'self.word_complete')
-    wcc = q.clears(ir, 'self.word_complete')
-    ok = len(wi) == 1 and wi[0].rhs.canon() == 'current_rx' and q.atoms(wi[0]) == {('self.word_accepted', True)} and \
-        len(wc) == 1 and q.atoms(wc[0]) == {('self.word_accepted', True)} and \
-        len(wcc) == 1 and q.atoms(wcc[0]) == {('self.word_accepted', False)}
+    # word_complete is a register: its next value must be word_accepted under every valuation (one-cycle truth table over
+    # all its drivers; None = no driver fires, the register would hold)
+    WA = 'self.word_accepted'
+    wc_bad = [(asg, v) for asg, v in q.flag_values(ir, 'self.word_complete', None, init=None) if WA not in asg or v is not asg[WA]]
+    ok = len(wi) == 1 and wi[0].rhs.canon() == 'current_rx' and q.atoms(wi[0]) == {(WA, True)} and \
+        not wc_bad and bool(ir.drivers('self.word_complete', exact=True))
     ctx.ob('C50.word-report', 'SPIDeviceInterface.word_in[%s]' % tag, ok, wi[0].loc if wi else None,
            'word_in <= current_rx and a one-cycle word_complete exactly when a word was accepted')
     dflt = [a for a in ir.drivers('self.word_accepted', exact=True) if q.is_zero(a.rhs) and not a.guard and a.order < acc[0].order]
